@@ -58,7 +58,7 @@ func Exec(bin string, spec *simrt.Spec, gomaxprocs string) *Out {
 	var o *Out
 	for attempt := 0; attempt < 4; attempt++ {
 		var started bool
-		o, started = execOnce(bin, in, gomaxprocs)
+		o, started = execOnce(bin, in, gomaxprocs, spec.Env["TZ"])
 		if started {
 			break
 		}
@@ -67,7 +67,7 @@ func Exec(bin string, spec *simrt.Spec, gomaxprocs string) *Out {
 	return o
 }
 
-func execOnce(bin string, in []byte, gomaxprocs string) (*Out, bool) {
+func execOnce(bin string, in []byte, gomaxprocs, tz string) (*Out, bool) {
 	ctx, cancel := context.WithTimeout(context.Background(), WallLimit)
 	defer cancel()
 	cmd := exec.CommandContext(ctx, bin)
@@ -80,6 +80,11 @@ func execOnce(bin string, in []byte, gomaxprocs string) (*Out, bool) {
 	}
 	cmd.ExtraFiles = []*os.File{pw}
 	cmd.Env = []string{"GOMAXPROCS=" + gomaxprocs, "GOTRACEBACK=single", "PATH=/nonexistent"}
+	if tz != "" {
+		// the standard library reads TZ from the REAL environment (time.Local), behind the shim's back: the
+		// simulated TZ is therefore also the real one of the simulated process
+		cmd.Env = append(cmd.Env, "TZ="+tz)
+	}
 	if d := os.Getenv("GOCOVERDIR"); d != "" { // tools/reach.sh: a -cover build of simbin reports which code the runs reached
 		cmd.Env = append(cmd.Env, "GOCOVERDIR="+d)
 	}
